@@ -13,9 +13,15 @@
        (lin_fit_forgets, lin_strip_is_fresh).  For LinGreedy / LinUCB those copies are never read: every operation
        commutes with erasing them and answers alike (LinSim), so fit discards everything observable.  For LinTS they
        are read by predict: that is finding D8, characterised exactly by this theorem.
-    ..._partial: neighbourhood policies are covered by the refit-versus-fresh relation executed on the implementation. *)
+     * Radius / KNearest / LSHNearest, TreeBandit, Clusters (Forget.v): the whole facade result of fit(D) on the used bandit equals
+       (Leibniz, for every accepted call) the result of fit(D) on the bandit with everything learned removed - empty history, no
+       planes / hash tables, no leaves, no fitted width, per-cluster policies as constructed, fitted flag down - and both are accepted
+       or rejected alike; for Clusters the hypothesis (per-cluster policies satisfy keys_ok and clean) holds in every reachable state
+       (ForgetInv.v); Thompson Sampling inside Clusters keeps only the stored copy of its last sample.
+    ..._partial (facade, context-free): stated up to the relation imp_rel rather than equality.  That the trees / k-means / planes the CODE
+    builds at fit depend on nothing earlier is the oracle's side of the contract: refit-versus-fresh relation on the implementation. *)
 From Coq Require Import List ZArith Bool Arith QArith Qcanon Permutation.
-From MW Require Import Num Assoc AssocFacts Rng Par CF CFInv CFClean CFForget CFSpec Matrix Lin Warm WarmInv Nbr NbrFacts NbrIndep LshFacts Clu Tree CellFacts Mab FacadeCF FacadeArms MoreFacts NumLaws CFAlg Sim Extra QcInst OrderFacts ExpIrrel LinInv FacadeLin LpInv NbrInv CluTreeInv FacadeAll ToyFacts C09All C10All LinForget LinSim MatrixFacts LinSpec.
+From MW Require Import Num Assoc AssocFacts Rng Par CF CFInv CFClean CFForget CFSpec Matrix Lin Warm WarmInv Nbr NbrFacts NbrIndep LshFacts Clu Tree CellFacts Mab FacadeCF FacadeArms MoreFacts NumLaws CFAlg Sim Extra QcInst OrderFacts ExpIrrel LinInv FacadeLin LpInv NbrInv CluTreeInv FacadeAll ToyFacts C09All C10All LinForget LinSim MatrixFacts GaussJordan LinSpec NbrIndepGen CluIndep C17Lin WarmIdem C14More LshScale TreeLeaf Rename PopSpec CopyFacts StatFacts CluBatch LinWarm Forget ForgetInv.
 Import ListNotations.
 
 Theorem C07_fit_forgets_context_free :
@@ -140,4 +146,84 @@ Theorem C07_lingreedy_linucb_remove_arm_ignores_the_copies :
 Proof. exact @lin_remove_arm_erase. Qed.
 Print Assumptions C07_lingreedy_linucb_remove_arm_ignores_the_copies.
 
+Theorem C07_fit_forgets_history_tables_trees_and_cluster_policies :
+  forall (R A G : Type) (N : Num R) (aeqb : A -> A -> bool) (RG : RngOps R G) 
+    (m : (@mab R A G)) (ds : list A) (rs : list R) (cx : option (@ctxs R)) (orc : (@oracle R A)),
+  match m_imp m with
+  | ICf _ | ILin _ => False
+  | _ => True
+  end ->
+  imp_forget_inv N (m_imp m) ->
+  let r := step N aeqb RG m (Fit ds rs cx orc) in
+  let r' := step N aeqb RG (mab_forget N m) (Fit ds rs cx orc) in
+  snd r = snd r' /\ (snd r = ODone -> fst r = fst r').
+Proof. exact @fit_forgets_history_tables_trees_clusters. Qed.
+Print Assumptions C07_fit_forgets_history_tables_trees_and_cluster_policies.
+
+Theorem C07_neighbourhood_policy_fit_forgets :
+  forall (R A G : Type) (N : Num R) (RG : RngOps R G) (s : (@nbr R A G)) (g : G) (ds : list A) 
+    (rs : list R) (cx : (@mat R)), nbr_fit N RG s g ds rs cx = nbr_fit N RG (nbr_forget s) g ds rs cx.
+Proof. exact @nbr_fit_forgets. Qed.
+Print Assumptions C07_neighbourhood_policy_fit_forgets.
+
+Theorem C07_forgotten_neighbourhood_policy_is_the_constructed_one :
+  forall (R A G : Type) (s : (@nbr R A G)),
+  n_exp s = afromkeys (n_arms s) None ->
+  match n_kind s with
+  | NLsh _ _ => True
+  | _ => n_planes s = [] /\ n_tables s = []
+  end ->
+  nbr_forget s = nbr_init (n_kind s) (n_metric s) (n_nnprob s) (n_kf_newarm0 s) (n_arms s) (n_lp s).
+Proof. exact @nbr_forget_is_constructed. Qed.
+Print Assumptions C07_forgotten_neighbourhood_policy_is_the_constructed_one.
+
+Theorem C07_clusters_fit_forgets :
+  forall (R A G : Type) (N : Num R) (aeqb : A -> A -> bool) (s : (@clu R A G)) (g : G) 
+    (ds : list A) (rs : list R) (cx : (@mat R)) (labels : list nat),
+  clu_lps_inv N s ->
+  clu_fit N aeqb s g ds rs cx labels = clu_fit N aeqb (clu_forget N s) g ds rs cx labels.
+Proof. exact @clu_fit_forgets. Qed.
+Print Assumptions C07_clusters_fit_forgets.
+
+Theorem C07_tree_fit_forgets :
+  forall (R A : Type) (aeqb : A -> A -> bool) (s : (@tree R A)) (leaf : A -> list R -> nat) 
+    (ds : list A) (rs : list R) (cx : (@mat R)),
+  tree_fit aeqb s leaf ds rs cx = tree_fit aeqb (tree_forget s) leaf ds rs cx.
+Proof. exact @tree_fit_forgets. Qed.
+Print Assumptions C07_tree_fit_forgets.
+
+Theorem C07_cluster_policy_invariant_on_every_history :
+  forall (R A G : Type) (N : Num R) (aeqb : A -> A -> bool) (RG : RngOps R G),
+  (forall x y : A, aeqb x y = true <-> x = y) ->
+  forall (ops : list (@op R A)) (m : (@mab R A G)),
+  rng_lengths_ok RG ->
+  imp_inv (m_imp m) ->
+  imp_forget_inv N (m_imp m) -> imp_forget_inv N (m_imp (state_after N aeqb RG m ops)).
+Proof. exact @run_preserves_forget_inv. Qed.
+Print Assumptions C07_cluster_policy_invariant_on_every_history.
+
+Theorem C07_constructed_clusters_satisfy_the_invariant :
+  forall (R A G : Type) (N : Num R) (m : (@mab R A G)) (n : nat) (arms : list A) (k : cfkind) 
+    (hp : R) (bz : option (A -> R -> R)),
+  NoDup arms ->
+  m_imp m = IClu (clu_init n arms (LCf (cf_init N k hp bz arms))) ->
+  imp_inv (m_imp m) /\ imp_forget_inv N (m_imp m).
+Proof. exact @constructed_clusters_forget_inv. Qed.
+Print Assumptions C07_constructed_clusters_satisfy_the_invariant.
+
+(* non-vacuity: a Clusters bandit over UCB1 with two clusters that has been trained, extended by an arm and trained again is
+   re-fitted; the used and the forgotten bandit end Leibniz-equal, and they differ before the call *)
+Definition q7 (z : Z) : Qc := Q2Qc (inject_Z z).
+Definition ex7_m0 : @mab Qc Z nat := mkMab (IClu (clu_init 2 [1; 2]%Z (LCf (cf_init QcNum KUcb (q7 1) None [1; 2]%Z)))) false 5%nat.
+Definition ex7_o (labels : list nat) : @oracle Qc Z := mkOracle [] labels [] (fun _ _ => 0%nat) [].
+Definition ex7_used := state_after QcNum Z.eqb ToyRng ex7_m0
+  [Fit [1; 2; 1]%Z [q7 1; q7 0; q7 3] (Some [[q7 0]; [q7 5]; [q7 1]]) (ex7_o [0; 1; 0]%nat);
+   AddArm 3%Z None;
+   PartialFit [3; 2]%Z [q7 2; q7 2] (Some [[q7 4]; [q7 0]]) (ex7_o [0; 1; 0; 1; 0]%nat)].
+Definition ex7_call := Fit [2; 3; 1]%Z [q7 1; q7 1; q7 0] (Some [[q7 2]; [q7 3]; [q7 9]]) (ex7_o [1; 1; 0]%nat).
+Example C07_clusters_example :
+  ex7_used <> mab_forget QcNum ex7_used /\
+  snd (step QcNum Z.eqb ToyRng ex7_used ex7_call) = ODone /\
+  fst (step QcNum Z.eqb ToyRng ex7_used ex7_call) = fst (step QcNum Z.eqb ToyRng (mab_forget QcNum ex7_used) ex7_call).
+Proof. split; [vm_compute; discriminate | split; vm_compute; reflexivity]. Qed.
 
